@@ -163,6 +163,7 @@ pub struct Run<'c, 's> {
     /// byte values present in this run (for coincidence-biased draws)
     pub dict: Vec<u8>,
     pub dict_pos: usize,
+    pub drain_guard_hit: bool,
 }
 
 pub struct RunOut {
@@ -245,6 +246,7 @@ impl<'c, 's> Run<'c, 's> {
             any_fault: false,
             dict: Vec::new(),
             dict_pos: 0,
+            drain_guard_hit: false,
         };
         for nc in cfg.nodes.iter() {
             r.dict.push(nc.addr);
@@ -419,6 +421,7 @@ impl<'c, 's> Run<'c, 's> {
             break;
         }
         if guard > 3000 {
+            self.drain_guard_hit = true;
             self.st.probe("drain-guard-hit");
         }
     }
